@@ -1,6 +1,7 @@
 CONSTANTS
   V = {}
   MaxN = 4
+  Vary = FALSE
 SPECIFICATION Spec
 INVARIANTS TypeOK Nested ReverseOrder StartOnlyAfterInit StopOnlyIfStarted CleanupOnlyAfterStop ExactlyOnce Balanced
            HooksCalled OptionalFailureIsolated StateAgrees DeadClean
